@@ -2,7 +2,7 @@
    Statements only; proofs in Proofs/ToggleProofs.v. All theorems are about whole transactions on the chain
    model (funds transfer, handler, sub-messages, replies), from an arbitrary world, for arbitrary senders. *)
 From MD.Model Require Import Base Ownable Epoch PoolMath Types PoolManager FarmManager Chain.
-From MD.Proofs Require Import SwapProofs ChainProofs PmProofs ToggleProofs FrameProofs FarmCustody FrameChain.
+From MD.Proofs Require Import SwapProofs ChainProofs PmProofs ToggleProofs FrameProofs FarmCustody FrameChain PositionsSafe OwnersOnly SwitchesSafe PositionsExample.
 
 Theorem C17_swaps_disabled_blocks_direct_swap : forall w sender funds ask bp ms r pid p,
   pool_find (w_pm w) pid = Ok p -> swaps_enabled (p_status p) = false ->
@@ -99,6 +99,24 @@ Proof.
   destruct H as (p & _ & Hp & _ & _ & _ & _ & _ & _ & _ & _ & Hs & _). eauto.
 Qed.
 
+(* OVER HISTORIES. While the pool manager's ownership is settled (owner o, a user address, no transfer pending), through
+   ANY history of operations that o does not sign - swaps, routes, deposits, withdrawals, pool creations, attempts at
+   privileged messages, calls between the contracts, replies, rejected operations, injected faults - every pool keeps
+   its three feature switches exactly as they are: what the owner disabled stays disabled, what is enabled stays enabled. *)
+Theorem C17_switches_move_only_by_the_owner : forall o ops w,
+  o <> EM -> o <> FC -> o <> PM -> o <> FM ->
+  Forall (not_signed_by o) ops ->
+  settled o (pm_own (w_pm w)) ->
+  forall id p, sfind p_id id (pm_pools (w_pm w)) = Some p ->
+    exists p', sfind p_id id (pm_pools (w_pm (run w ops))) = Some p' /\ p_id p' = p_id p /\ p_status p' = p_status p.
+Proof. exact switches_move_only_by_the_owner. Qed.
+
+(* the hypotheses are met by a real history (kernel-evaluated): the owner disabled swaps on pool "o.b"; the others then try
+   to switch them back on, to take over the pool manager and to trade on the pool (rejected), deposit into it and trade
+   elsewhere (accepted): swaps on "o.b" are still disabled, deposits still enabled *)
+Theorem C17_switches_example : switches_statement.
+Proof. exact switches_example. Qed.
+
 Print Assumptions C17_swaps_disabled_blocks_direct_swap.
 Print Assumptions C17_swaps_disabled_blocks_any_route_through_pool.
 Print Assumptions C17_swaps_disabled_blocks_single_asset_deposit.
@@ -112,3 +130,5 @@ Print Assumptions C17_switches_change_nothing_else.
 Print Assumptions C17_operations_on_other_pools_unaffected.
 Print Assumptions C17_gate_is_the_own_switch.
 Print Assumptions C17_accepted_transactions_are_unaffected_by_the_switches.
+Print Assumptions C17_switches_move_only_by_the_owner.
+Print Assumptions C17_switches_example.
